@@ -511,6 +511,77 @@ func genWalletFacts(repo string) (string, error) {
 		})
 		fmt.Fprintf(&b, "def %s : List String := %s\n", spec[2], walletLeanStrList(shape))
 	}
+	// ---- wallet/wallet.go: the updater's reorganisation check and what a rescan resets
+	ww, err := wparse(repo, "wallet/wallet.go")
+	if err != nil {
+		return "", err
+	}
+	fd, err = ww.fn("walletUpdater", "*Wallet")
+	if err != nil {
+		return "", err
+	}
+	var updShape []string
+	ast.Inspect(fd.Body, func(x ast.Node) bool {
+		switch st := x.(type) {
+		case *ast.ForStmt:
+			if st.Cond != nil {
+				updShape = append(updShape, "for "+ww.str(st.Cond))
+			}
+		case *ast.CallExpr:
+			f := ww.str(st.Fun)
+			if strings.HasPrefix(f, "w.") && !strings.HasPrefix(f, "w.status") {
+				updShape = append(updShape, "call "+f)
+			}
+		}
+		return true
+	})
+	fmt.Fprintf(&b, "def walletUpdaterShape : List String := %s\n", walletLeanStrList(updShape))
+	for _, fn := range []string{"setRescanStatus", "loadWalletInfo", "AttachBlock", "DetachBlock"} {
+		fd, err = ww.fn(fn, "*Wallet")
+		if err != nil {
+			return "", err
+		}
+		var st []string
+		ast.Inspect(fd.Body, func(x ast.Node) bool {
+			switch a := x.(type) {
+			case *ast.AssignStmt:
+				if len(a.Lhs) == 1 && strings.HasPrefix(ww.str(a.Lhs[0]), "w.status") {
+					st = append(st, ww.str(a))
+				}
+			case *ast.IfStmt:
+				if strings.Contains(ww.str(a.Cond), "w.status") {
+					st = append(st, "if "+ww.str(a.Cond))
+				}
+			}
+			return true
+		})
+		fmt.Fprintf(&b, "def statusWrites_%s : List String := %s\n", fn, walletLeanStrList(st))
+	}
+	// ---- txbuilder witness JSON: what is written under "signatures"
+	for _, spec := range [][3]string{{"blockchain/txbuilder/signature_witness.go", "SignatureWitness", "sigWitnessMarshalSigs"},
+		{"blockchain/txbuilder/rawtxsig_witness.go", "RawTxSigWitness", "rawTxSigWitnessMarshalSigs"}} {
+		wf, err := wparse(repo, spec[0])
+		if err != nil {
+			return "", err
+		}
+		fd, err = wf.fn("MarshalJSON", spec[1])
+		if err != nil {
+			return "", err
+		}
+		val := ""
+		ast.Inspect(fd.Body, func(x ast.Node) bool {
+			if kv, ok := x.(*ast.KeyValueExpr); ok {
+				if id, ok := kv.Key.(*ast.Ident); ok && id.Name == "Sigs" {
+					val = wf.str(kv.Value)
+				}
+			}
+			return true
+		})
+		if val == "" {
+			return "", fmt.Errorf("%s.MarshalJSON: no Sigs field", spec[1])
+		}
+		fmt.Fprintf(&b, "def %s : String := %s\n", spec[2], walletLeanStr(val))
+	}
 	b.WriteString("\nend BytomModel.Gen.WalletFacts\n")
 	return b.String(), nil
 }
